@@ -199,12 +199,47 @@ def extract_crate(crate_dir, crate_name):
         shutil.rmtree(target, ignore_errors=True)
 
 
+# The vocabulary the properties are stated in.  The rules name these types by
+# these paths; when a clean-up moves one of them into a submodule (and
+# re-exports it) the facts are renamed back to the canonical path, so that a
+# moved type is still the same anchor.  A type that disappears or becomes
+# ambiguous is left alone and the affected rules fail closed.
+VOCABULARY = (
+    "lexer::Token", "lexer::LexError", "lexer::InterpSlot",
+    "ast::RawExpr", "ast::Stmt", "ast::BinaryOp", "ast::ListItem", "ast::PropItem", "ast::Branch",
+    "eval::value::Value", "eval::value::SourcedValue", "eval::error::Error",
+    "eval::scope::ScopeStack", "eval::Escape", "eval::bind::BindType",
+    "eval::EvaluationContext",
+)
+
+
+def vocabulary_renames(facts):
+    have = {a["path"] for a in facts.get("adts", [])}
+    ren = {}
+    for p in VOCABULARY:
+        if p in have:
+            continue
+        root, name = p.split("::")[0], p.split("::")[-1]
+        cands = [q for q in have if q.endswith("::" + name) and q.split("::")[0] == root]
+        if len(cands) == 1:
+            ren[cands[0]] = p
+    return ren
+
+
 def load(repo="/repo", force=False, warm=True):
     fp, pp, meta = extract(repo, force=force, warm=warm)
     with open(fp) as fh:
-        facts = json.load(fh)
+        text = fh.read()
+    facts = json.loads(text)
     if facts.get("crate") != "seed":
         raise BuildFailure("fact file does not carry the seed crate marker")
+    ren = vocabulary_renames(facts)
+    if ren:
+        import re as _re
+        for q, p in sorted(ren.items(), key=lambda kv: -len(kv[0])):
+            text = _re.sub(r"(?<![A-Za-z0-9_:])" + _re.escape(q) + r"(?![A-Za-z0-9_])", p, text)
+        facts = json.loads(text)
+        meta = dict(meta or {}, vocabulary_renames=ren)
     with open(pp) as fh:
         parser_rs = fh.read()
     return facts, parser_rs, meta
